@@ -63,7 +63,7 @@ def file_api(kind, src, tmp, mapping=None, copier=False, defines=None, name="pro
                 rep = "raised"
                 rc = None
         data = open(out, "rb").read() if os.path.exists(out) else None
-        return rep, data, any("Success" in m for m in cap.records), list(p.resolver.get_all_labels()) if p is not None else []
+        return rep, data, any("Success" in m for m in cap.records), impl.labels_of(p.resolver) if p is not None else []
     finally:
         for lg in loggers:
             lg.removeHandler(cap)
